@@ -906,7 +906,29 @@ func checkFetcherMapping(c *core.Ctx) {
 			}
 			c.Func(core.FnName(fn))
 			got := map[string]string{} // Struct.Field -> source field name(s)
-			for _, b := range fn.Blocks {
+			// the method and the conversion helpers of its package it calls (two levels): where the records are built
+			scan := []*ssa.Function{fn}
+			inScan := map[*ssa.Function]bool{fn: true}
+			for depth, frontier := 0, []*ssa.Function{fn}; depth < 2; depth++ {
+				var next []*ssa.Function
+				for _, g := range frontier {
+					for _, gb := range g.Blocks {
+						for _, gi := range gb.Instrs {
+							if cal := core.StaticCallee(gi); cal != nil && cal.Pkg == fn.Pkg && cal.Blocks != nil && !inScan[cal] && cal.Signature.Recv() == nil {
+								inScan[cal] = true
+								scan = append(scan, cal)
+								next = append(next, cal)
+							}
+						}
+					}
+				}
+				frontier = next
+			}
+			var allBlocks []*ssa.BasicBlock
+			for _, g := range scan {
+				allBlocks = append(allBlocks, g.Blocks...)
+			}
+			for _, b := range allBlocks {
 				for _, in := range b.Instrs {
 					st, ok := in.(*ssa.Store)
 					if !ok {
